@@ -2,7 +2,7 @@
 
 import math
 
-from kernel.type import RealType
+from kernel.type import NatType, RealType
 from kernel.term import Term, Var, Lambda, Inst, Nat, Real, Eq
 from kernel.thm import Thm
 from kernel.proofterm import ProofTerm, TacticException
@@ -54,19 +54,33 @@ def eval_hol_expr(t: Term):
     return res
 
 def eval_inequality_expr(t):
-    """Evaluate inequality."""
+    """Evaluate inequality between constants of type nat or real."""
+    body = t.arg if t.is_not() else t
+    if not (body.is_equals() or body.is_compares()):
+        raise NotImplementedError
+
+    # Evaluate at the type of the two sides: subtraction on natural
+    # numbers is truncated, so nat terms cannot be evaluated as reals.
+    T = body.arg1.get_type()
+    if T == NatType:
+        ev = nat.nat_eval
+    elif T == RealType:
+        ev = eval_hol_expr
+    else:
+        raise NotImplementedError
+
     if t.is_equals():
-        return eval_hol_expr(t.arg1) == eval_hol_expr(t.arg)
+        return ev(t.arg1) == ev(t.arg)
     elif t.is_not() and t.arg.is_equals():
-        return eval_hol_expr(t.arg.arg1) != eval_hol_expr(t.arg.arg)
+        return ev(t.arg.arg1) != ev(t.arg.arg)
     elif t.is_greater_eq():
-        return eval_hol_expr(t.arg1) >= eval_hol_expr(t.arg)
+        return ev(t.arg1) >= ev(t.arg)
     elif t.is_greater():
-        return eval_hol_expr(t.arg1) > eval_hol_expr(t.arg)
+        return ev(t.arg1) > ev(t.arg)
     elif t.is_less_eq():
-        return eval_hol_expr(t.arg1) <= eval_hol_expr(t.arg)
+        return ev(t.arg1) <= ev(t.arg)
     elif t.is_less():
-        return eval_hol_expr(t.arg1) < eval_hol_expr(t.arg)
+        return ev(t.arg1) < ev(t.arg)
     else:
         raise NotImplementedError
 
